@@ -1,4 +1,12 @@
-"""C10 — PIN / Parquet parsing: correspondence of Model/PinCols.v with mokapot.read_pin / read_percolator."""
+"""C10 — PIN / Parquet parsing: correspondence of Model/PinCols.v with mokapot.read_pin / read_percolator.
+
+White-box review (reviews/C10.md): besides the column-chunk arithmetic the generator now leaves the 'one fresh
+float-only .tsv file, one call, default row labels' domain: file suffixes, text styles (missing-value tokens, CRLF, BOM,
+gzip), Parquet layouts (row groups independent of the scan batch, label dtypes, NaN vs null, dictionary columns, stored
+pandas index), feature columns of every dtype and with awkward names, missing values in the optional key columns,
+caller-named columns next to default-named ones, several files per call, repeated calls, relative paths, direct
+read_percolator calls, zero / one / several hundred rows."""
+import gzip
 import os
 import shutil
 import tempfile
@@ -8,22 +16,57 @@ from .. import lib
 from ..lib import call_impl
 
 PROP = "C10"
-RULE = ("generated PSM tables written as tab-delimited text or Parquet and parsed by the real read_pin: "
-        "(1) sweep: every (column-scan chunk size c in 2..25 (quick: a stride), feature count n with every residue of "
-        "(n + #identifier columns) mod c) x identifier sets of 2..5 columns; (2) random tables: 0..60 features, shuffled "
-        "column order, random letter case of reserved names, optional filename/calcmass/expmass/ret_time/charge and "
-        "rollup-level columns, labels as 1/-1, 1/0 or booleans, NaN in none/one/several feature columns, "
-        "row-scan chunk sizes 1..rows+1, max_workers 1..4; (3) malformed: missing or duplicated required column, "
-        "labels 2/-2, user-specified optional column that does not exist. distinct = distinct case; non-trivial = "
-        "table has >=1 NaN column, or >=1 optional/level column, or feature count >= c")
+RULE = ("generated PSM tables written as tab-delimited text or Parquet and parsed by the real read_pin / read_percolator: "
+        "(1) sweep: every (column-scan chunk size c in 1..25 (quick: a stride), feature count n with every residue of "
+        "(n + #identifier columns) mod c) x identifier sets of 2..5 columns; (1b) create_chunks_with_identifier itself "
+        "against the model for n in 0..45, 1..5 identifier columns, c in 1..25; (2) random tables: 0..60 features, shuffled "
+        "column order, random letter case of reserved names (also of the charge columns), optional "
+        "filename/calcmass/expmass/ret_time/charge and rollup-level columns (also several level columns differing only in "
+        "case), labels as 1/-1, 1/0, mixed 1/0/-1 or booleans (text: True/true/TRUE; Parquet: bool, int8..int64, uint8), NaN in "
+        "none/one/several feature columns and in the optional key columns (rows must stay), row-scan chunk sizes "
+        "1..rows+1, max_workers 1..4 and -1; each such table is also varied in: file suffix (.tsv/.txt fall-back, .pin, "
+        ".tab, .pin.gz), missing-value token ('', NaN, nan, NA, NULL, N/A, null), CRLF, no final newline, UTF-8 BOM, Parquet row-group "
+        "size independent of the scan batch, NaN stored as NaN or as null, dictionary-encoded strings, feature columns of "
+        "int / bool / string / inf / huge-int values, feature names that contain reserved names, differ only in case, carry "
+        "blanks or look like pandas-internal names, absolute or relative path, read_pin or read_percolator, parse repeated; "
+        "(2b) caller-named optional columns (also charge_column=), also next to a default-named column of the same role; "
+        "(3) malformed: missing (one or two) or duplicated required column, duplicated optional column, labels 2/-2/3/100/.., "
+        "missing or textual label (oracle only), user-specified optional column that does not exist or differs in case; "
+        "(4) several files in one read_pin call (list/tuple, 2..4 files of different formats, headers and row counts, file "
+        "names not in sorted order): dataset k must be the faithful parse of file k; (5) Parquet files carrying a pandas "
+        "index (int / string / offset RangeIndex) and zero-row files [known findings]; 1-row and 150..400-row tables. "
+        "Every second case of a run is written to one shared path (the file is replaced). The property oracle is part of "
+        "the verdict of every case (same()), the model is compared on all but the 'oracle only' cases. distinct = distinct "
+        "case; non-trivial = table has >=1 NaN column, or >=1 optional/level column, or feature count >= c, or >1 file")
 ASSUMPTIONS = [
     "column names are ASCII; str.lower modelled for A-Z only",
-    "cell values are opaque to the model (mapped to integer ids by the harness); pandas/pyarrow (de)serialisation is an oracle",
+    "cell values are opaque to the model (mapped to integer ids by the harness); pandas/pyarrow (de)serialisation is an oracle "
+    "(cell values are chosen so that text round-trips exactly: halves/quarters, integers, plain words)",
     "row-chunked NaN scan is modelled as 'column contains a NaN' (row chunk size varied only on the implementation side)",
+    "a Parquet file that stores a pandas index column holds that column under the name __index_level_0__ (schema name); the "
+    "property is read as: it is an ordinary non-reserved column",
+    "PYTHONHASHSEED is fixed per run (set iteration order inside the NaN scan is not varied within a run)",
 ]
-TRUSTED_EXTRA = ["pandas.read_csv / pyarrow Parquet reader (oracle: cell values, dtypes, NaN detection)"]
+TRUSTED_EXTRA = ["pandas.read_csv / pyarrow Parquet reader (oracle: cell values, dtypes, NaN detection, default missing-value tokens)"]
 
 REQ = ["SpecId", "Label", "ScanNr", "Peptide", "Proteins"]
+REQ_L = [r.lower() for r in REQ]
+OPT_L = ("filename", "calcmass", "expmass", "ret_time")
+LEVEL_L = ("modifiedpeptide", "precursor", "peptidegroup")
+OPT_KEYS = (("filename", "filename_column"), ("calcmass", "calcmass_column"), ("expmass", "expmass_column"),
+            ("ret_time", "rt_column"))
+IDX_COL = "__index_level_0__"
+K_PQ_INDEX = "read_pin:parquet-stored-pandas-index"
+K_PQ_EMPTY = "read_pin:parquet-zero-rows"
+
+# feature names a real table may carry: reserved names as substrings, names differing only in case, blanks, punctuation,
+# names pandas uses internally
+ODD_NAMES = ["lnExpect", "Label2", "ScanNrX", "specid_2", "peptide_len", "PepLen", "ProteinsCount", "ExpMassDiff", "dM",
+             "absdM", "index", "level_0", "0", "1", "scan nr", " lead", "trail ", "f,1", "f#1", "mass (Da)", "abs(dM)",
+             "x.1", "Unnamed", "FEAT0", "Feat1", "feaT2", "XCorr", "xcorr", "deltCn", "deltLCn", "enzN", "enzC", "enzInt",
+             "Mass", "calc_mass", "ret-time", "file", "Peptides", "Protein", "target", "is_decoy", "score", "q-value",
+             "Charge1", "ChargeState", "none_feat", "True", "nan_count"]
+WORDS = ["trypsin", "lysc", "hcd", "cid", "etd", "orbi", "qtof", "a b", "x-y", "semi", "full"]
 
 
 def _case(rng, name):
@@ -95,9 +138,193 @@ def _table(rng, nfeat, cs, opt=None, levels=None, nrows=None, label_enc=None, na
             "user_opts": {}, "label_enc": label_enc, "tags": list(tags) + [label_enc, "nan=" + nan]}
 
 
+# ----------------------------------------------------------------------------- white-box variation of one table
+def _nrows(c):
+    return len(c["data"][c["cols"][0]]) if c["cols"] else 0
+
+
+def _is_feat(c, x):
+    """a column that plays no role at all (a feature unless it has a missing value)"""
+    lx = x.lower()
+    if lx in REQ_L or lx in OPT_L or lx in LEVEL_L or lx.startswith("charge") or x == IDX_COL:
+        return False
+    return x not in (c.get("user_opts") or {}).values()
+
+
+def _rename(c, old, new):
+    c["cols"][c["cols"].index(old)] = new
+    c["data"][new] = c["data"].pop(old)
+    for k, v in list((c.get("user_opts") or {}).items()):
+        if v == old:
+            c["user_opts"][k] = new
+
+
+def _vary_format(rng, c):
+    """how the table is stored and how the parser is called (does not change the table)"""
+    tags = c["tags"]
+    n = _nrows(c)
+    if c["fmt"] == "tsv":
+        c["suffix"] = rng.choice([".tsv", ".pin", ".pin", ".pin", ".tab", ".txt", ".pin.gz"])
+        c["tsv"] = {"na_rep": rng.choice(["", "", "", "NaN", "nan", "NA", "NULL", "N/A", "null"]),
+                    "eol": rng.choice(["\n", "\n", "\n", "\r\n"]), "final_nl": rng.random() < 0.8,
+                    "bom": rng.random() < 0.1, "bool": rng.choice(["True", "True", "true", "TRUE"])}
+        tags += ["suffix=" + c["suffix"], "na_rep=" + (c["tsv"]["na_rep"] or "empty")]
+        if c["tsv"]["eol"] != "\n":
+            tags.append("crlf")
+        if not c["tsv"]["final_nl"]:
+            tags.append("no-final-newline")
+        if c["tsv"]["bom"]:
+            tags.append("bom")
+        if c["label_enc"] == "bool" and c["tsv"]["bool"] != "True":
+            tags.append("bool-text=" + c["tsv"]["bool"])
+    else:
+        c["suffix"] = ".parquet"
+        ld = None
+        if c["label_enc"] == "01":
+            ld = rng.choice([None, "int8", "int32", "uint8", "int16"])
+        elif c["label_enc"] in ("pm1", "mixed"):
+            ld = rng.choice([None, "int8", "int32", "int16"])
+        c["pq"] = {"row_group": rng.choice([1, 2, 3, 5, max(1, n - 1), n + 1, 1000]), "label_dtype": ld,
+                   "nan_not_null": rng.random() < 0.35, "categorical": rng.random() < 0.3, "index": None}
+        tags += ["suffix=.parquet", "rowgroup" + ("=" if c["pq"]["row_group"] == min(c["rowchunk"], 1000) else "!=") + "batch"]
+        if ld:
+            tags.append("label-dtype=" + ld)
+        if c["pq"]["nan_not_null"]:
+            tags.append("pq-nan-not-null")
+        if c["pq"]["categorical"]:
+            tags.append("pq-dictionary")
+    if rng.random() < 0.12:
+        c["workers"] = -1
+        tags.append("workers=-1")
+    c["call"] = "read_percolator" if rng.random() < 0.15 else "read_pin"
+    c["pathkind"] = "rel" if rng.random() < 0.15 else "abs"
+    c["twice"] = rng.random() < 0.12
+    tags += ["call=" + c["call"], "path=" + c["pathkind"]] + (["twice"] if c["twice"] else [])
+    return c
+
+
+def _vary_table(rng, c, p=1.0):
+    """leave the 'float features called feat<i>, complete key columns' domain"""
+    tags = c["tags"]
+    n = _nrows(c)
+    feats = [x for x in c["cols"] if _is_feat(c, x)]
+    # feature columns of other dtypes (missing cells stay missing)
+    if feats and rng.random() < 0.5 * p:
+        for x in feats:
+            if rng.random() < 0.35:
+                kind = rng.choice(["int", "bool", "str", "inf", "bigint", "intlike-float"])
+                new = []
+                for v in c["data"][x]:
+                    if v is None:
+                        new.append(None)
+                    elif kind == "int":
+                        new.append(rng.randint(-5, 40))
+                    elif kind == "bool":
+                        new.append(rng.random() < 0.5)
+                    elif kind == "str":
+                        new.append(rng.choice(WORDS))
+                    elif kind == "inf":
+                        new.append(rng.choice([float("inf"), float("-inf"), 1.5, -2.25]))
+                    elif kind == "bigint":
+                        new.append(rng.choice([2 ** 40, -2 ** 40, 10 ** 15 + 1, 7]))
+                    else:
+                        new.append(float(rng.randint(0, 9)))
+                c["data"][x] = new
+                if "feat-dtype=" + kind not in tags:
+                    tags.append("feat-dtype=" + kind)
+    # awkward feature names
+    if feats and rng.random() < 0.4 * p:
+        taken = set(c["cols"]) | {"RunFile", "TheoMass", "ObsMass", "RT", "Z"}
+        for x in rng.sample(feats, min(len(feats), rng.randint(1, 6))):
+            new = rng.choice(ODD_NAMES)
+            if new in taken:
+                continue
+            taken.add(new)
+            _rename(c, x, new)
+        tags.append("odd-names")
+        if len({y.lower() for y in c["cols"]}) < len(c["cols"]):
+            tags.append("case-twin-features")
+    # letter case of the charge columns
+    if rng.random() < 0.5 * p:
+        for x in [y for y in c["cols"] if y.lower().startswith("charge") and _case(rng, y) != y]:
+            new = _case(rng, x)
+            if new not in c["cols"] and new.lower() not in [y.lower() for y in c["cols"] if y != x]:
+                _rename(c, x, new)
+                if "charge-case" not in tags:
+                    tags.append("charge-case")
+    # several level columns that differ only in case (find_columns returns them all)
+    if rng.random() < 0.15 * p:
+        base = rng.choice(["Precursor", "ModifiedPeptide", "PeptideGroup"])
+        have = [y for y in c["cols"] if y.lower() == base.lower()]
+        for cand in (base, base.upper(), base.lower(), base.swapcase()):
+            if cand not in c["cols"] and len(have) < 2:
+                c["cols"].insert(rng.randint(0, len(c["cols"])), cand)
+                c["data"][cand] = ["lw%d" % rng.randint(0, 4) for _ in range(n)]
+                have.append(cand)
+        if c["cols"][-1] != IDX_COL and IDX_COL in c["cols"]:
+            c["cols"].remove(IDX_COL)
+            c["cols"].append(IDX_COL)
+        tags.append("level-twins")
+    # missing values in the optional key / mass columns: the rows must stay
+    keyish = [x for x in c["cols"] if x.lower() in OPT_L or x in (c.get("user_opts") or {}).values()]
+    keyish = [x for x in keyish if not x.lower().startswith("charge")]
+    if keyish and n and rng.random() < 0.3 * p:
+        for x in rng.sample(keyish, rng.randint(1, len(keyish))):
+            for r in rng.sample(range(n), rng.randint(1, max(1, n // 2))):
+                c["data"][x][r] = None
+        tags.append("nan-in-key-columns")
+    # all three label values in one table
+    if c["label_enc"] == "01" and rng.random() < 0.35 * p:
+        lab = [x for x in c["cols"] if x.lower() == "label"][0]
+        c["data"][lab] = [(-1 if (v == 0 and rng.random() < 0.5) else v) for v in c["data"][lab]]
+        c["label_enc"] = "mixed"
+        tags.append("mixed")
+    # scan numbers beyond 32 bit, key values with blanks / non-ASCII text
+    if rng.random() < 0.15 * p:
+        sc = [x for x in c["cols"] if x.lower() == "scannr"]
+        if sc:
+            c["data"][sc[0]] = [v + 10 ** 12 for v in c["data"][sc[0]]]
+            tags.append("scan-huge")
+    if rng.random() < 0.3 * p:
+        fn = [x for x in c["cols"] if x.lower() == "filename" or x == (c.get("user_opts") or {}).get("filename_column")]
+        if fn:
+            pool = ["run 1 (a).raw", "C:\\data\\r2.raw", "r\u00e9pl_3.mzML", "/mnt/x/y.d", "b.mzML"]
+            c["data"][fn[0]] = [None if v is None else rng.choice(pool) for v in c["data"][fn[0]]]
+            tags.append("filename-odd-text")
+    return c
+
+
+def _vary(rng, c, p=1.0):
+    return _vary_format(rng, _vary_table(rng, c, p))
+
+
+def _with_pq_index(rng, c, kind):
+    """Parquet file written by pandas with its index (df[mask].to_parquet(path), df.set_index(..).to_parquet(path))"""
+    n = _nrows(c)
+    c["fmt"] = "parquet"
+    c = _vary_format(rng, c)
+    c["pq"]["index"] = kind
+    if kind == "int":
+        vals = sorted(rng.sample(range(0, 3 * n + 5), n))
+        if vals == list(range(n)):
+            vals = [v + 1 for v in vals]
+    elif kind == "str":
+        vals = ["row%d" % i for i in range(n)]
+    else:
+        vals = None
+        c["pq"]["range_start"] = rng.randint(1, 50)
+    if vals is not None:
+        c["cols"].append(IDX_COL)
+        c["data"][IDX_COL] = vals
+    c["tags"] += ["pq-pandas-index=" + kind]
+    return c
+
+
+# ----------------------------------------------------------------------------- generator
 def gen(ctx):
     cases = []
     rng = ctx.sub("sweep")
+    vr = ctx.sub("sweep-vary")
     # (1) residue sweep
     chunk_sizes = range(2, 26) if ctx.thorough else [2, 3, 5, 7, 19]
     for cs in chunk_sizes:
@@ -107,21 +334,39 @@ def gen(ctx):
             for r in range(cs):
                 # choose nfeat such that (nfeat + k) % cs == r
                 nfeat = (r - k) % cs + base
-                cases.append(_table(rng, nfeat, cs, opt=list(opt), levels=[], nrows=rng.randint(1, 6), nan="none",
-                                    shuffle=False, fmt="tsv", tags=("sweep", f"cs={cs}", f"nid={k}")))
+                c = _table(rng, nfeat, cs, opt=list(opt), levels=[], nrows=rng.randint(1, 6), nan="none",
+                           shuffle=False, fmt="tsv", tags=("sweep", f"cs={cs}", f"nid={k}"))
+                c["suffix"] = vr.choice([".tsv", ".pin"])
+                c["tags"].append("suffix=" + c["suffix"])
+                cases.append(c)
+    # column chunk of ONE column (every identifier set is larger than the chunk)
+    for opt in ([], ["expmass"], ["filename", "ret_time", "expmass"]):
+        for nfeat in ((0, 1, 2, 5, 9) if ctx.thorough else (0, 1, 4)):
+            cases.append(_vary_format(vr, _table(rng, nfeat, 1, opt=list(opt), nrows=rng.randint(1, 6), fmt=vr.choice(["tsv", "parquet"]),
+                                                 tags=("sweep", "cs=1", f"nid={len(opt) + 2}"))))
     # default chunk size 19 with 18 / 37 features and three identifier columns (F2)
     for nfeat in (18, 37, 17, 19, 36, 38):
         cases.append(_table(rng, nfeat, 19, opt=["expmass"], levels=[], nrows=4, nan="none", shuffle=False, fmt="tsv",
                             tags=("sweep", "default-chunk", "nid=3")))
+    # (1b) the chunking function itself
+    rng = ctx.sub("chunks")
+    for cs in (range(1, 26) if ctx.thorough else (1, 2, 3, 4, 7, 19)):
+        for k in range(1, 6):
+            for n in (range(0, 46) if ctx.thorough else sorted({0, 1, cs - 1, cs, cs + 1, 2 * cs - k if 2 * cs > k else 2, 18, 37, rng.randint(0, 45)})):
+                cases.append({"fn": "chunks", "n": max(0, n), "k": k, "cs": cs, "tags": ["chunks-fn"]})
     # (2) random tables
     rng = ctx.sub("random")
+    vr = ctx.sub("random-vary")
     for k in range(500 if ctx.thorough else 120):
         cs = rng.choice([2, 3, 4, 5, 7, 10, 19, 19, 25, 64])
         nfeat = rng.randint(0, 60)
-        cases.append(_table(rng, nfeat, cs, tags=("random",)))
-    # (2b) caller-named optional columns (filename_column=, calcmass_column=, expmass_column=, rt_column=): the optional
-    #      columns carry unconventional names and the matching options are passed to read_pin
+        c = _table(rng, nfeat, cs, tags=("random",))
+        # the first third stays in the plain domain (plain .tsv, float features) except for the storage format
+        cases.append(c if k % 3 == 0 else _vary(vr, c))
+    # (2b) caller-named optional columns (filename_column=, calcmass_column=, expmass_column=, rt_column=, charge_column=):
+    #      the optional columns carry unconventional names and the matching options are passed to read_pin
     rng = ctx.sub("useropt")
+    vr = ctx.sub("useropt-vary")
     ALT = {"filename": ("filename_column", "RunFile"), "calcmass": ("calcmass_column", "TheoMass"),
            "expmass": ("expmass_column", "ObsMass"), "ret_time": ("rt_column", "RT")}
     for k in range(200 if ctx.thorough else 60):
@@ -135,6 +380,28 @@ def gen(ctx):
             c["data"][new] = c["data"].pop(old_name)
             c["user_opts"][key] = new
         c["tags"].append("renamed=" + "+".join(sorted(ren)))
+        if k % 2:
+            n = _nrows(c)
+            # a default-named column of the same role next to the caller-named one: it plays no role
+            for o in ren:
+                if vr.random() < 0.4:
+                    dn = _case(vr, {"filename": "FileName", "calcmass": "CalcMass", "expmass": "ExpMass", "ret_time": "ret_time"}[o])
+                    c["cols"].insert(vr.randint(0, len(c["cols"])), dn)
+                    c["data"][dn] = ["other%d.raw" % vr.randint(0, 2) for _ in range(n)] if o == "filename" else \
+                        [vr.randint(0, 80) * 0.25 for _ in range(n)]
+                    if "coexist" not in c["tags"]:
+                        c["tags"].append("coexist")
+            # caller-named charge column
+            if vr.random() < 0.5:
+                ch = [x for x in c["cols"] if x.lower().startswith("charge")]
+                if ch and vr.random() < 0.6:
+                    c["user_opts"]["charge_column"] = vr.choice(ch)
+                else:
+                    c["cols"].insert(vr.randint(0, len(c["cols"])), "Z")
+                    c["data"]["Z"] = [vr.randint(1, 4) for _ in range(n)]
+                    c["user_opts"]["charge_column"] = "Z"
+                c["tags"].append("user-charge")
+            c = _vary(vr, c)
         cases.append(c)
     # (3) malformed
     rng = ctx.sub("malformed")
@@ -170,6 +437,109 @@ def gen(ctx):
             c["user_opts"] = {rng.choice(["filename_column", "calcmass_column", "expmass_column", "rt_column", "charge_column"]): rng.choice(feats)}
         c["tags"].append(kind)
         cases.append(c)
+    # (3b) more malformed tables
+    rng = ctx.sub("malformed2")
+    for k in range(240 if ctx.thorough else 48):
+        kind = ["missing2", "dup-opt", "label-far", "label-nan", "label-text", "useropt-case", "label-far-late", "dup-plain"][k % 8]
+        c = _table(rng, rng.randint(0, 8), rng.choice([3, 19]), nan="none", opt=["expmass", "filename"] if kind in ("dup-opt", "useropt-case") else None,
+                   nrows=rng.randint(6, 20) if kind == "label-far-late" else None, tags=("malformed",))
+        cols, data = c["cols"], c["data"]
+        n = _nrows(c)
+        lab = [x for x in cols if x.lower() == "label"][0]
+        if kind == "missing2":
+            for victim in rng.sample([x for x in cols if x.lower() in REQ_L], 2):
+                cols.remove(victim)
+                del data[victim]
+        elif kind == "dup-opt":
+            victim = rng.choice([x for x in cols if x.lower() in ("expmass", "filename")])
+            alt = [a for a in (victim.swapcase(), victim.upper(), victim.lower()) if a not in cols]
+            if not alt:
+                continue
+            cols.insert(rng.randint(0, len(cols)), alt[0])
+            data[alt[0]] = list(data[victim])
+        elif kind == "dup-plain":
+            # the duplicate sits far from the original and holds other values
+            victim = rng.choice([x for x in cols if x.lower() in REQ_L])
+            alt = [a for a in (victim.upper(), victim.lower(), victim.swapcase()) if a not in cols]
+            if not alt:
+                continue
+            cols.insert(0 if cols.index(victim) > len(cols) // 2 else len(cols), alt[0])
+            data[alt[0]] = list(reversed(data[victim]))
+        elif kind in ("label-far", "label-far-late"):
+            if c["label_enc"] == "bool":
+                data[lab] = [1 if v else -1 for v in data[lab]]
+                c["label_enc"] = "pm1"
+            bad = rng.choice([3, -3, 100, -100, 2 ** 40, -2 ** 40, 7, 255, 256, -128, 65537])
+            data[lab][n - 1 if kind == "label-far-late" else rng.randrange(n)] = bad
+            if kind == "label-far-late":
+                c["rowchunk"] = rng.choice([1, 2, 3])
+        elif kind == "label-nan":
+            data[lab][rng.randrange(n)] = None
+            c["model"] = False
+        elif kind == "label-text":
+            data[lab] = ["target" if v in (1, True) else "decoy" for v in data[lab]]
+            c["label_enc"] = "text"
+            c["model"] = False
+        elif kind == "useropt-case":
+            victim = rng.choice([x for x in cols if x.lower() in ("expmass", "filename")])
+            wrong = [a for a in (victim.swapcase(), victim.upper(), victim.lower()) if a not in cols]
+            if not wrong:
+                continue
+            c["user_opts"] = {"expmass_column" if victim.lower() == "expmass" else "filename_column": wrong[0]}
+        c = _vary_format(rng, c)
+        if c.get("pq"):
+            c["pq"]["label_dtype"] = None
+        if kind in ("label-nan", "label-text"):
+            c["twice"] = False
+        c["tags"].append(kind)
+        cases.append(c)
+    # (4) several files in one call: dataset k belongs to file k
+    rng = ctx.sub("multi")
+    for k in range(150 if ctx.thorough else 24):
+        nfiles = rng.randint(2, 4)
+        names = rng.sample(["b_rep", "a_rep", "z_first", "m.part", "A_upper", "run10", "run2", "c c"], nfiles)
+        if names == sorted(names):
+            names.reverse()
+        tabs = []
+        for j in range(nfiles):
+            t = _vary(rng, _table(rng, rng.randint(0, 10), 19, nrows=rng.randint(1, 9), tags=()), p=0.6)
+            t["fname"] = names[j]
+            t["twice"] = False
+            t["call"] = "read_pin"
+            tabs.append(t)
+        pos = rng.randrange(nfiles)
+        c = tabs[pos]
+        c["cs"] = rng.choice([2, 3, 5, 19])
+        c["siblings"] = [dict(t, tags=[]) for j, t in enumerate(tabs) if j != pos]
+        c["pos"] = pos
+        c["container"] = rng.choice(["list", "tuple"])
+        c["pathkind"] = rng.choice(["abs", "abs", "rel"])
+        c["tags"] = ["multi", f"files={nfiles}", "container=" + c["container"]] + c["tags"]
+        cases.append(c)
+    # (5) Parquet files that carry a pandas index, zero-row tables, 1-row and larger tables
+    rng = ctx.sub("layout")
+    for k in range(90 if ctx.thorough else 18):
+        kind = ["int", "str", "range"][k % 3]
+        c = _table(rng, rng.randint(0, 8), rng.choice([3, 19]), nrows=rng.randint(2, 12), fmt="parquet", tags=("layout",))
+        cases.append(_with_pq_index(rng, c, kind))
+    for k in range(24 if ctx.thorough else 10):
+        c = _table(rng, rng.randint(0, 8), rng.choice([3, 19]), nrows=3, fmt=["tsv", "parquet"][k % 2], tags=("layout", "rows=0"))
+        c["data"] = {x: [] for x in c["cols"]}
+        c["zero_like"] = {x: ("s" if x.lower() in ("specid", "peptide", "proteins", "filename") + LEVEL_L else
+                              ("b" if (x.lower() == "label" and c["label_enc"] == "bool") else
+                               ("i" if x.lower() in ("label", "scannr") else "f"))) for x in c["cols"]}
+        c["tags"] = [t for t in c["tags"] if not t.startswith("nan=")] + ["nan=none"]
+        c = _vary_format(rng, c)
+        c["rowchunk"] = rng.choice([1, 3, 2000000])
+        cases.append(c)
+    for k in range(24 if ctx.thorough else 8):
+        c = _table(rng, rng.randint(0, 20), rng.choice([3, 19]), nrows=1, tags=("layout", "rows=1"))
+        cases.append(_vary(rng, c))
+    for k in range(30 if ctx.thorough else 5):
+        n = rng.randint(150, 400)
+        c = _table(rng, rng.randint(1, 25), rng.choice([4, 19]), nrows=n, tags=("layout", "rows>=150"))
+        c["rowchunk"] = rng.choice([7, 64, 100, n // 2, n - 1, 2000000])
+        cases.append(_vary(rng, c))
     return cases
 
 
@@ -199,10 +569,13 @@ def _key(v):
 
 
 def encode(c):
+    if c["fn"] == "chunks":
+        return "c10.chunks %s %s %s" % (lib.lst(range(c["n"])), lib.lst(range(1000, 1000 + c["k"])), lib.z(c["cs"]))
+    if c.get("model") is False:
+        return "c10.chunks 0 0 b1"        # not modelled (label cell that is no number): property oracle only
     cols = c["cols"]
     uo = c.get("user_opts", {})
     opts = [uo.get(k) for k in ("filename_column", "calcmass_column", "expmass_column", "rt_column", "charge_column")]
-    lab = [x for x in cols if x.lower() == "label"]
     label_is_bool = c["label_enc"] == "bool"
     cm = _cellmap(c)
     nrows = len(next(iter(c["data"].values()))) if c["data"] else 0
@@ -223,6 +596,11 @@ def encode(c):
 
 
 def decode(c, t):
+    if c["fn"] == "chunks":
+        return ("ok", t.lst(lambda: t.lst()))
+    if c.get("model") is False:
+        return ("not-modelled", None)
+
     def body():
         d = {}
         d["features"] = t.lst(t.s)
@@ -240,64 +618,70 @@ def decode(c, t):
 
 
 # ----------------------------------------------------------------------------- implementation side
-def _write(c, d):
+def _frame(c):
     import pandas as pd
-    df = pd.DataFrame({col: c["data"][col] for col in c["cols"]}, columns=c["cols"])
+    cols = [x for x in c["cols"] if x != IDX_COL]
+    if _nrows(c) == 0 and c.get("zero_like"):
+        proto = {"s": "x", "b": True, "i": 1, "f": 1.5}
+        df = pd.DataFrame({col: [proto[c["zero_like"][col]]] for col in cols}, columns=cols).iloc[:0]
+        return df.reset_index(drop=True)
+    return pd.DataFrame({col: c["data"][col] for col in cols}, columns=cols)
+
+
+def _write(c, d):
+    df = _frame(c)
+    suffix = c.get("suffix") or (".parquet" if c["fmt"] == "parquet" else ".tsv")
+    p = Path(d) / (c.get("fname", "table") + suffix)
     if c["fmt"] == "parquet":
-        p = Path(d) / "table.parquet"
-        df.to_parquet(p, index=False, row_group_size=max(1, min(c["rowchunk"], 1000)))
-    else:
-        p = Path(d) / "table.tsv"
+        pqs = c.get("pq")
+        if not pqs:                       # the plain layout of the original check
+            df.to_parquet(p, index=False, row_group_size=max(1, min(c["rowchunk"], 1000)))
+            return p
+        import pandas as pd
+        import pyarrow as pa
+        import pyarrow.parquet as pq
+        lab = [x for x in df.columns if x.lower() == "label"]
+        if pqs.get("label_dtype") and lab and len(df):
+            df[lab[0]] = df[lab[0]].astype(pqs["label_dtype"])
+        if pqs.get("categorical"):
+            for x in df.columns:
+                if x.lower() in ("filename", "peptide") or x == (c.get("user_opts") or {}).get("filename_column"):
+                    df[x] = df[x].astype("category")
+        keep_index = False
+        if pqs.get("index") in ("int", "str"):
+            df.index = pd.Index(c["data"][IDX_COL])
+            keep_index = True
+        elif pqs.get("index") == "range":
+            df.index = pd.RangeIndex(pqs["range_start"], pqs["range_start"] + len(df))
+            keep_index = None             # pandas default: a RangeIndex is stored as metadata only
+        tab = pa.Table.from_pandas(df, preserve_index=keep_index)
+        if pqs.get("nan_not_null"):
+            for j, name in enumerate(tab.column_names):
+                if name in df.columns and str(df[name].dtype) == "float64":
+                    tab = tab.set_column(j, tab.schema.field(j), pa.array(df[name].to_numpy(), from_pandas=False))
+        pq.write_table(tab, p, row_group_size=max(1, pqs["row_group"]))
+        return p
+    st = c.get("tsv")
+    if not st:                            # the plain layout of the original check
         df.to_csv(p, sep="\t", index=False, na_rep="")
+        return p
+    lab = [x for x in df.columns if x.lower() == "label"]
+    if c["label_enc"] == "bool" and st["bool"] != "True" and lab and len(df):
+        t, f = st["bool"], {"true": "false", "TRUE": "FALSE"}[st["bool"]]
+        df[lab[0]] = [None if v is None else (t if v else f) for v in c["data"][lab[0]]]
+    text = df.to_csv(sep="\t", index=False, na_rep=st["na_rep"], lineterminator=st["eol"])
+    if not st["final_nl"] and text.endswith(st["eol"]):
+        text = text[: -len(st["eol"])]
+    raw = text.encode("utf-8-sig" if st["bom"] else "utf-8")
+    if suffix.endswith(".gz"):
+        with gzip.open(p, "wb") as fh:
+            fh.write(raw)
+    else:
+        p.write_bytes(raw)
     return p
 
 
 _SHARED_DIR = None
-
-
-def _read(c):
-    import mokapot
-    import mokapot.parsers.pin as pin
-    # every second case is written to ONE path that all such cases of the run share (the file is replaced, as a pipeline
-    # that regenerates its PIN file does): parsing must depend on what the file holds now, not on an earlier parse of that path
-    shared = int(str(lib.stable_hash(c["cols"]))[:8], 16) % 2 == 0
-    if shared:
-        global _SHARED_DIR
-        if _SHARED_DIR is None or not os.path.isdir(_SHARED_DIR):
-            _SHARED_DIR = tempfile.mkdtemp(prefix="c10shared_", dir=os.environ.get("VERIF_TMP", "/tmp"))
-            import atexit
-            atexit.register(shutil.rmtree, _SHARED_DIR, True)
-        d = _SHARED_DIR
-    else:
-        d = tempfile.mkdtemp(prefix="c10_", dir=os.environ.get("VERIF_TMP", "/tmp"))
-    old = (pin.CHUNK_SIZE_COLUMNS_FOR_DROP_COLUMNS, pin.CHUNK_SIZE_ROWS_FOR_DROP_COLUMNS)
-    try:
-        p = _write(c, d)
-        pin.CHUNK_SIZE_COLUMNS_FOR_DROP_COLUMNS = c["cs"]
-        pin.CHUNK_SIZE_ROWS_FOR_DROP_COLUMNS = c["rowchunk"]
-        ds = mokapot.read_pin(p, max_workers=c["workers"], **c.get("user_opts", {}))
-        assert len(ds) == 1
-        ds = ds[0]
-        cm = _cellmap(c)
-        sp = list(ds.spectrum_columns)
-        sdf = ds.spectra_dataframe
-        rows = []
-        for _, r in sdf.iterrows():
-            rows.append([cm[col].get(_key(_norm(r[col])), -1) for col in sp])
-        out = {
-            "features": list(ds.feature_columns), "spectrum": sp, "metadata": list(ds.metadata_columns),
-            "levels": list(ds.level_columns), "target": ds.target_column, "peptide": ds.peptide_column,
-            "protein": ds.protein_column, "specid": ds.specId_column, "scan": ds.scan_column,
-            "filename": ds.filename_column, "calcmass": ds.calcmass_column, "expmass": ds.expmass_column,
-            "rt": ds.rt_column, "charge": ds.charge_column,
-            "spectra_rows": rows, "targets": [bool(v) for v in sdf[ds.target_column].tolist()],
-            "sdf_columns": list(sdf.columns), "index": [int(i) for i in sdf.index.tolist()],
-        }
-        return out
-    finally:
-        pin.CHUNK_SIZE_COLUMNS_FOR_DROP_COLUMNS, pin.CHUNK_SIZE_ROWS_FOR_DROP_COLUMNS = old
-        if not shared:
-            shutil.rmtree(d, ignore_errors=True)
 
 
 def _norm(v):
@@ -307,37 +691,195 @@ def _norm(v):
             v = v.item()
     except Exception:
         pass
+    if v is None:
+        return None
     if isinstance(v, float) and v != v:
         return None
+    try:
+        import pandas as pd
+        if v is pd.NA or v is pd.NaT:
+            return None
+    except Exception:
+        pass
     return v
+
+
+def _extract(ds, c, p):
+    cm = _cellmap(c)
+    sp = list(ds.spectrum_columns)
+    sdf = ds.spectra_dataframe
+    colvals = {col: sdf[col].tolist() for col in sp}
+    rows = [[cm.get(col, {}).get(_key(_norm(colvals[col][r])), -1) for col in sp] for r in range(len(sdf))]
+    tg = sdf[ds.target_column].tolist()
+    return {
+        "features": list(ds.feature_columns), "spectrum": sp, "metadata": list(ds.metadata_columns),
+        "levels": list(ds.level_columns), "target": ds.target_column, "peptide": ds.peptide_column,
+        "protein": ds.protein_column, "specid": ds.specId_column, "scan": ds.scan_column,
+        "filename": ds.filename_column, "calcmass": ds.calcmass_column, "expmass": ds.expmass_column,
+        "rt": ds.rt_column, "charge": ds.charge_column,
+        "spectra_rows": rows, "targets": [v if type(v) is bool else "not-a-bool:%r" % (v,) for v in tg],
+        "sdf_columns": list(sdf.columns), "index": [i if type(i) is int else repr(i) for i in sdf.index.tolist()],
+        "columns": list(ds.columns), "file_ok": ds.filename == p, "n_types": len(ds.metadata_column_types),
+    }
+
+
+def _set_chunks(cs, rowchunk):
+    """the chunk constants are bound at import: set them wherever the parser may look them up"""
+    import mokapot.constants as K
+    import mokapot.parsers.pin as pin
+    old = []
+    for mod in (pin, K):
+        for name, val in (("CHUNK_SIZE_COLUMNS_FOR_DROP_COLUMNS", cs), ("CHUNK_SIZE_ROWS_FOR_DROP_COLUMNS", rowchunk)):
+            if hasattr(mod, name):
+                old.append((mod, name, getattr(mod, name)))
+                setattr(mod, name, val)
+    return old
+
+
+def _read(c):
+    import mokapot
+    import mokapot.parsers.pin as pin
+    if c["fn"] == "chunks":
+        return [list(x) for x in pin.create_chunks_with_identifier(list(range(c["n"])), list(range(1000, 1000 + c["k"])), c["cs"])]
+    # every second case is written to ONE path that all such cases of the run share (the file is replaced, as a pipeline
+    # that regenerates its PIN file does): parsing must depend on what the file holds now, not on an earlier parse of that path
+    shared = int(str(lib.stable_hash(c["cols"]))[:8], 16) % 2 == 0 and not c.get("siblings")
+    if shared:
+        global _SHARED_DIR
+        if _SHARED_DIR is None or not os.path.isdir(_SHARED_DIR):
+            _SHARED_DIR = tempfile.mkdtemp(prefix="c10shared_", dir=os.environ.get("VERIF_TMP", "/tmp"))
+            import atexit
+            atexit.register(shutil.rmtree, _SHARED_DIR, True)
+        d = _SHARED_DIR
+    else:
+        d = tempfile.mkdtemp(prefix="c10_", dir=os.environ.get("VERIF_TMP", "/tmp"))
+    old = _set_chunks(c["cs"], c["rowchunk"])
+    cwd = os.getcwd()
+    try:
+        p = _write(c, d)
+        tables = [c]
+        paths = [p]
+        for j, sib in enumerate(c.get("siblings") or []):
+            tables.append(sib)
+            paths.append(_write(sib, d))
+        if c.get("siblings"):
+            pos = c["pos"]
+            tables.insert(pos, tables.pop(0))
+            paths.insert(pos, paths.pop(0))
+        if c.get("pathkind") == "rel":
+            os.chdir(d)
+            paths = [Path(q.name) for q in paths]
+        kw = dict(c.get("user_opts", {}))
+        if c.get("call") == "read_percolator":
+            dss = [pin.read_percolator(paths[0], max_workers=c["workers"], **kw)]
+        elif len(paths) == 1:
+            dss = mokapot.read_pin(paths[0], max_workers=c["workers"], **kw)
+        else:
+            dss = mokapot.read_pin(list(paths) if c.get("container") == "list" else tuple(paths), max_workers=c["workers"], **kw)
+        assert isinstance(dss, list) and len(dss) == len(paths), "read_pin returned %d datasets for %d files" % (len(dss), len(paths))
+        main = c.get("pos", 0) if c.get("siblings") else 0
+        out = _extract(dss[main], c, paths[main])
+        if c.get("siblings"):
+            probs = []
+            for j, (t, q, ds) in enumerate(zip(tables, paths, dss)):
+                if j == main:
+                    continue
+                msg = _table_failure(t, ("ok", _extract(ds, t, q)))
+                if msg:
+                    probs.append("file %d (%s): %s" % (j, q.name, msg))
+            out["siblings"] = probs
+        if c.get("twice"):
+            again = mokapot.read_pin(paths[0], max_workers=c["workers"], **kw)
+            out["second_same"] = len(again) == 1 and _extract(again[0], c, paths[0]) == {k: v for k, v in out.items() if k not in ("siblings",)}
+        return out
+    finally:
+        os.chdir(cwd)
+        for mod, name, val in reversed(old):
+            setattr(mod, name, val)
+        if not shared:
+            shutil.rmtree(d, ignore_errors=True)
 
 
 def impl(c):
     return call_impl(_read, c)
 
 
+# ----------------------------------------------------------------------------- verdict
+MODEL_KEYS = ("features", "spectrum", "metadata", "levels", "target", "peptide", "protein", "specid", "scan",
+              "filename", "calcmass", "expmass", "rt", "charge", "spectra_rows", "targets")
+
+
+def _problems(c, m, i, with_index=True):
+    """every reason why the implementation result is not accepted for this case"""
+    if c["fn"] == "chunks":
+        out = []
+        if m is not None and lib.jsonable(m) != lib.jsonable(i):
+            out.append("model")
+        msg = oracle(c, i)
+        if msg:
+            out.append("oracle: " + msg)
+        return out
+    out = []
+    modelled = c.get("model") is not False
+    if modelled and m is not None:
+        if m[0] != i[0]:
+            out.append("model: %s vs %s" % (m[0], i[0]))
+        elif m[0] == "err":
+            if m[1] != i[1]:
+                out.append("model: error kind")
+        else:
+            a, b = m[1], i[1]
+            for k in MODEL_KEYS:
+                if a[k] != b[k]:
+                    out.append("model: " + k)
+    if i[0] == "ok":
+        b = i[1]
+        n = len(b["targets"])
+        if with_index and b["index"] != list(range(n)):
+            out.append("index")
+        if b["sdf_columns"] != b["spectrum"] + [b["target"]]:
+            out.append("spectra_dataframe columns")
+        if b.get("columns") is not None and b["columns"] != c["cols"]:
+            out.append("dataset.columns are not the columns of the file")
+        if b.get("file_ok") is False:
+            out.append("dataset.filename is not the parsed file")
+        if b.get("n_types") is not None and b["n_types"] != len(b["metadata"]):
+            out.append("metadata_column_types not aligned with metadata_columns")
+        if b.get("siblings"):
+            out.append("siblings")
+        if b.get("second_same") is False:
+            out.append("a second parse of the same file differs")
+    msg = _table_failure(c, i, with_index=with_index)
+    if msg:
+        out.append("oracle: " + msg)
+    return out
+
+
 def same(c, m, i):
-    if m[0] != i[0]:
-        return False
-    if m[0] == "err":
-        return m[1] == i[1]
-    a, b = m[1], i[1]
-    for k in ("features", "spectrum", "metadata", "levels", "target", "peptide", "protein", "specid", "scan",
-              "filename", "calcmass", "expmass", "rt", "charge", "spectra_rows", "targets"):
-        if a[k] != b[k]:
-            return False
-    n = len(b["targets"])
-    if b["index"] != list(range(n)):
-        return False
-    if b["sdf_columns"] != b["spectrum"] + [b["target"]]:
-        return False
-    return True
+    return not _problems(c, m, i)
 
 
 def nontrivial(c):
+    if c["fn"] == "chunks":
+        return c["n"] >= 1
     t = c.get("tags", [])
     return "malformed" in t or "nan=none" not in t or any(x.lower() in ("filename", "calcmass", "expmass", "ret_time", "modifiedpeptide", "precursor", "peptidegroup") for x in c["cols"]) \
-        or sum(1 for x in c["cols"] if x.startswith("feat")) >= c["cs"]
+        or sum(1 for x in c["cols"] if x.startswith("feat")) >= c["cs"] or bool(c.get("siblings")) or bool(c.get("user_opts"))
+
+
+def _label_ok(v):
+    return isinstance(v, (bool, int)) and v in (1, 0, -1, True, False)
+
+
+def _must_fail(c):
+    """the property demands an error: a required column is missing / not unique, or a label is outside {1,0,-1,bool}"""
+    low = [x.lower() for x in c["cols"]]
+    if any(low.count(r) != 1 for r in REQ_L):
+        return "a required column is missing or not unique"
+    lab = [x for x in c["cols"] if x.lower() == "label"][0]
+    if not all(_label_ok(v) for v in c["data"][lab]):
+        return "a label is not one of 1/-1/0/true/false"
+    return None
 
 
 def _wellformed(c):
@@ -351,23 +893,29 @@ def _wellformed(c):
         if "useropt-valid" not in c.get("tags", []) or not all(v in c["cols"] for v in c["user_opts"].values()):
             return False
     lab = [x for x in c["cols"] if x.lower() == "label"][0]
-    return all(v in (1, 0, -1, True, False) for v in c["data"][lab])
+    return all(_label_ok(v) for v in c["data"][lab])
 
 
-def oracle(c, i):
-    """property text on the implementation output, independent of the model"""
+def _table_failure(c, i, with_index=True):
+    """property text on the implementation output for ONE table, independent of the model"""
+    why = _must_fail(c)
+    if why:
+        return None if i[0] == "err" else f"table accepted although {why}"
     if not _wellformed(c):
         return None
     if i[0] != "ok":
         return f"well-formed table rejected: {i!r}"
     r = i[1]
     cols = c["cols"]
-    low = {x.lower(): x for x in cols}
+    low = {}
+    for x in cols:
+        low.setdefault(x.lower(), x)
     uo = c.get("user_opts", {})
-    for k, key in (("filename", "filename_column"), ("calcmass", "calcmass_column"), ("expmass", "expmass_column"),
-                   ("ret_time", "rt_column")):
+    for k, key in OPT_KEYS:
         if uo.get(key):
             low[k] = uo[key]          # the caller named the column that plays this role
+        elif sum(1 for x in cols if x.lower() == k) != 1:
+            low.pop(k, None)
     reserved = {low[k] for k in ("specid", "label", "scannr", "peptide", "proteins")}
     for k in ("filename", "calcmass", "expmass", "ret_time"):
         if k in low:
@@ -375,9 +923,11 @@ def oracle(c, i):
     for x in cols:
         if x.lower() in ("modifiedpeptide", "precursor", "peptidegroup"):
             reserved.add(x)
+    # the charge rule of read_percolator: the charge column is no feature when there are other charge columns
     alt_charge = [x for x in cols if x.lower().startswith("charge")]
-    if "charge_column" in low and len(alt_charge) > 1:
-        reserved.add(low["charge_column"])
+    charge = uo.get("charge_column") or ([x for x in cols if x.lower() == "charge_column"] or [None])[0]
+    if charge is not None and len(alt_charge) > 1:
+        reserved.add(charge)
     nan_cols = {x for x in cols if any(v is None for v in c["data"][x])}
     exp_feat = [x for x in cols if x not in reserved and x not in nan_cols]
     if r["features"] != exp_feat:
@@ -392,20 +942,76 @@ def oracle(c, i):
     cm = _cellmap(c)
     exp_rows = [[cm[col][_key(c['data'][col][k])] for col in exp_sp] for k in range(len(exp_t))]
     if r["spectra_rows"] != exp_rows:
+        if len(r["spectra_rows"]) != len(exp_rows):
+            return f"spectra_dataframe has {len(r['spectra_rows'])} entries for {len(exp_rows)} input rows"
         return "spectra_dataframe does not hold one entry per input row in file order"
+    if with_index and r.get("index") is not None and r["index"] != list(range(len(exp_t))):
+        return f"entries of spectra_dataframe are not labelled with the row positions 0..n-1 of the file: {r['index'][:8]}"
+    return None
+
+
+def oracle(c, i):
+    """the property on the implementation output, independent of the model"""
+    if c["fn"] == "chunks":
+        if i[0] != "ok":
+            return f"create_chunks_with_identifier failed: {i!r}"
+        chunks = i[1]
+        ids = list(range(1000, 1000 + c["k"]))
+        holders = [ch for ch in chunks if any(x in ids for x in ch)]
+        if len(holders) != 1 or holders[0] is not chunks[-1] or chunks[-1][-len(ids):] != ids:
+            return f"identifier columns are not kept together at the end of one chunk: {chunks}"
+        flat = [x for ch in chunks for x in ch if x not in ids]
+        if flat != list(range(c["n"])):
+            return "not every feature column in exactly one chunk, in order"
+        return None
+    msg = _table_failure(c, i)
+    if msg:
+        return msg
+    if i[0] == "ok":
+        r = i[1]
+        if r.get("siblings"):
+            return "one call with several files: " + "; ".join(r["siblings"][:2])
+        if _wellformed(c):
+            if r.get("columns") is not None and r["columns"] != c["cols"]:
+                return "dataset.columns are not the columns of the file"
+            if r.get("file_ok") is False:
+                return "dataset.filename is not the parsed file"
+            if r.get("second_same") is False:
+                return "a second parse of the same file differs from the first"
     return None
 
 
 def finding_key(c, m, i):
+    """known defects of the pinned tree (known_findings.json); the key is given only when the known defect is ALL
+    that is wrong with the case"""
+    if c.get("fn") != "read" or c.get("fmt") != "parquet":
+        return None
+    kind = (c.get("pq") or {}).get("index")
+    if kind:
+        if i[0] == "err":
+            return K_PQ_INDEX if (kind == "str" and i[1] == "TypeError") else None
+        if "index" in _problems(c, m, i) and not _problems(c, m, i, with_index=False):
+            return K_PQ_INDEX
+        return None
+    if _nrows(c) == 0 and i == ("err", "ValueError") and _wellformed(c) and (m is None or m[0] == "ok"):
+        return K_PQ_EMPTY
     return None
 
 
 def shrink(c):
+    if c.get("fn") != "read":
+        return
     cols = c["cols"]
-    feats = [x for x in cols if x.startswith("feat")]
+    if c.get("siblings"):
+        yield dict(c, siblings=c["siblings"][:-1], pos=min(c["pos"], len(c["siblings"]) - 1))
     nrows = len(c["data"][cols[0]]) if cols else 0
     if nrows > 1:
         yield dict(c, data={k: v[: nrows // 2] for k, v in c["data"].items()})
     for x in cols:
-        if x.lower() not in [r.lower() for r in REQ] and not x.startswith("feat"):
+        if x.lower() not in [r.lower() for r in REQ] and not x.startswith("feat") and x != IDX_COL \
+                and x not in (c.get("user_opts") or {}).values():
             yield dict(c, cols=[y for y in cols if y != x], data={k: v for k, v in c["data"].items() if k != x})
+    feats = [x for x in cols if x.startswith("feat")]
+    if len(feats) > 1:
+        drop = set(feats[len(feats) // 2:])
+        yield dict(c, cols=[y for y in cols if y not in drop], data={k: v for k, v in c["data"].items() if k not in drop})
